@@ -362,6 +362,9 @@ func registerBigIntrinsics() {
 			return Float{math.Pow(a[0].(Float).f, a[1].(Float).f)}
 		},
 		"math.Abs": func(p *Path, _ *ssa.Function, a []Value) Value {
+			if sf, ok := a[0].(SFloat); ok {
+				return p.sfloatAbs(sf)
+			}
 			return Float{math.Abs(a[0].(Float).f)}
 		},
 	}
